@@ -335,6 +335,10 @@ def shard(ctx):
                         p_unary=rng.choice([0, 0.1, 0.25]),
                         moves=rng.choice([0, 1, 1, 2, 3, 5, 8]),
                         root_pieces=rng.choice([1, 1, 2, 3]))
+        gen.spice(rng, spec, ['cat-keyword', 'cat-apostrophe', 'cat-punct-char',
+                              'cat-digit-first', 'pos-punct-char',
+                              'pos-apostrophe', 'word-keyword'],
+                  root_labels=['TOP', 'ROOT', 'S'])
         heads = rng.choice(['direct', 'direct', 'negra', 'negra',
                             'preset:negra', 'preset:ptb'])
         if heads.startswith('preset:') and rng.random() < 0.6:
